@@ -40,10 +40,20 @@ def programs():
     P['loop-auto-ping||close'] = dict(z=None, loop='auto-ping', loop_n=2, threads=[[['close', 1000, 'bye']]])
     P['loop-server-ping-close||close||send'] = dict(z=None, loop='server-ping-close', loop_n=3,
                                                    threads=[[['close', 1000, 'bye']], [['send_binary', b'T2-0']]])
+    # the client has already closed; the loop processes the server's reply (Closed) while others send / close
+    P['pre-closed:loop-close-reply||send_text'] = dict(z=None, loop='server-close-reply', loop_n=3, pre=[['close', 1000, 'bye']],
+                                                       threads=[[['send_text', 'T1-0']]])
+    P['pre-closed:loop-close-reply||send_binary||close'] = dict(z=None, loop='server-close-reply', loop_n=3, pre=[['close', 1000, 'bye']],
+                                                                threads=[[['send_binary', b'T1-0']], [['close', 1001, 'again']]])
     P['close||close||send_text'] = dict(z=None, threads=[[['close', 1000, 'a']], [['close', 1001, 'b']], [['send_text', 'T2-0']]])
     P['close||text||binary-z'] = dict(z='permessage-deflate', threads=[[['close', 1000, 'bye']], [['send_text', 'T1-0 kkkkkkkkkkkk']],
                                                                          [['send_binary', b'T2-0 kkkkkkkkkkkk']]])
     P['loop-server-close||close||send'] = dict(z=None, loop='server-close', loop_n=3, threads=[[['close', 1001, 'app']], [['send_ping', b'T2-0']]])
+    # the client has already closed; the loop processes the server's reply (Closed) while others send / close
+    P['pre-closed:loop-close-reply||send_text'] = dict(z=None, loop='server-close-reply', loop_n=3, pre=[['close', 1000, 'bye']],
+                                                       threads=[[['send_text', 'T1-0']]])
+    P['pre-closed:loop-close-reply||send_binary||close'] = dict(z=None, loop='server-close-reply', loop_n=3, pre=[['close', 1000, 'bye']],
+                                                                threads=[[['send_binary', b'T1-0']], [['close', 1001, 'again']]])
     P['close||close||send_text'] = dict(z=None, threads=[[['close', 1000, 'a']], [['close', 1001, 'b']], [['send_text', 'T2-0']]])
     P['close||text||binary-z'] = dict(z='permessage-deflate', threads=[[['close', 1000, 'bye']], [['send_text', 'T1-0 kkkkkkkkkkkk']],
                                                                          [['send_binary', b'T2-0 kkkkkkkkkkkk']]])
